@@ -57,8 +57,14 @@ pub enum Tail {
 
 #[derive(Serialize, Deserialize, Clone, Debug, PartialEq, Eq)]
 pub enum FOp {
-    /// `image` is a canonical valid file: parse it through the faulty disk, re-serialise, re-parse
-    RoundTrip { reads: Vec<DiskEv> },
+    /// `image` is a canonical valid file: parse it through the faulty disk, re-serialise, re-parse.
+    /// `offset` > 0: the file sits behind that many bytes of unrelated data in the stream (a
+    /// container, a seeked File, output appended to existing data) for both the read and the write
+    RoundTrip {
+        reads: Vec<DiskEv>,
+        #[serde(default)]
+        offset: usize,
+    },
     /// parse `image` (valid), save it through a faulty disk that crashes after `durable` bytes
     /// (None = no crash), then parse the survivor
     SaveCrash {
@@ -349,7 +355,8 @@ fn size_class(rng: &mut Rng, big: usize) -> usize {
 }
 
 fn gen_pth(rng: &mut Rng) -> Image {
-    let n = size_class(rng, 400);
+    // the shipped AS1 has 288 nodes; real tracks go beyond a thousand
+    let n = if rng.chance(1, 12) { rng.usize(400, 1600) } else { size_class(rng, 400) };
     let mut b = b"LFSPTH".to_vec();
     b.push(rng.byte());
     b.push(rng.byte());
@@ -589,6 +596,7 @@ impl Prop for C17 {
                     image: img.bytes,
                     op: FOp::RoundTrip {
                         reads: if fault_free { vec![] } else { gen_disk_script(rng, n, hard, false) },
+                        offset: if rng.chance(1, 4) { rng.usize(1, 9) } else { 0 },
                     },
                     note: String::new(),
                 }
@@ -785,9 +793,43 @@ impl Prop for C17 {
         }
 
         match &sc.op {
-            FOp::RoundTrip { reads } => {
+            FOp::RoundTrip { reads, offset } => {
                 sig.u64(1);
-                rep.nontrivial = !reads.is_empty();
+                rep.nontrivial = !reads.is_empty() || *offset > 0;
+                if *offset > 0 {
+                    if let Ok(p) = &base {
+                        rep.probe("round_trip_at_stream_offset");
+                        // read behind a prefix
+                        let mut whole = vec![0xA5u8; *offset];
+                        whole.extend_from_slice(&sc.image);
+                        let mut rd = Cursor::new(whole);
+                        rd.set_position(*offset as u64);
+                        match guarded(|| parse(sc.kind, &mut rd)) {
+                            Err(m) => rep.violations.push(v("file.panic", format!("{} parsing behind a {}-byte prefix panicked: {}", tag, offset, m))),
+                            Ok(Err(e)) => rep.violations.push(v("file.offset_changed_result", format!("{} a valid file was rejected when it starts at stream offset {}: {}", tag, offset, e))),
+                            Ok(Ok(p2)) => {
+                                let mut w = Cursor::new(Vec::new());
+                                let _ = save(&p2, &mut w);
+                                if w.into_inner() != sc.image {
+                                    rep.violations.push(v("file.offset_changed_result", format!("{} the same bytes parse to a different structure at stream offset {}: {} vs {}", tag, offset, describe(&p2), describe(p))));
+                                }
+                            },
+                        }
+                        // write behind a prefix
+                        let mut wr = Cursor::new(vec![0x5Au8; *offset]);
+                        wr.set_position(*offset as u64);
+                        match guarded(|| save(p, &mut wr)) {
+                            Err(m) => rep.violations.push(v("file.panic", format!("{} writing behind a {}-byte prefix panicked: {}", tag, offset, m))),
+                            Ok(Err(e)) => rep.violations.push(v("file.write_failed", format!("{} writing at stream offset {} failed: {}", tag, offset, e))),
+                            Ok(Ok(())) => {
+                                let out = wr.into_inner();
+                                if out.len() < *offset || out[*offset..] != sc.image[..] {
+                                    rep.violations.push(v("file.offset_changed_result", format!("{} written at stream offset {} the file is {} bytes instead of {} / differs", tag, offset, out.len().saturating_sub(*offset), len)));
+                                }
+                            },
+                        }
+                    }
+                }
                 match &base {
                     Err(e) => rep.violations.push(v("file.valid_rejected", format!("{} a canonical {}-byte file was rejected: {}", tag, len, e))),
                     Ok(p) => {
@@ -1036,15 +1078,15 @@ impl Prop for C17 {
         let mut c = Vec::new();
         // simplify the op's scripts
         match &sc.op {
-            FOp::RoundTrip { reads } if !reads.is_empty() => {
+            FOp::RoundTrip { reads, offset } if !reads.is_empty() => {
                 let mut s = sc.clone();
-                s.op = FOp::RoundTrip { reads: vec![] };
+                s.op = FOp::RoundTrip { reads: vec![], offset: *offset };
                 c.push(s);
                 for i in 0..reads.len().min(80) {
                     let mut r = reads.clone();
                     let _ = r.remove(i);
                     let mut s = sc.clone();
-                    s.op = FOp::RoundTrip { reads: r };
+                    s.op = FOp::RoundTrip { reads: r, offset: *offset };
                     c.push(s);
                 }
             },
@@ -1127,6 +1169,7 @@ impl Prop for C17 {
             "eio_rejected",
             "real_file",
             "real_file_hostile_count",
+            "round_trip_at_stream_offset",
         ]
     }
 }
